@@ -438,6 +438,79 @@ def emit(facts, path):
     return text
 
 
+# ------------------------------------------------------------------ tracing-gated code is log-only
+LOG = r"(?:tracing::)?(?:trace|debug|info|warn|error)!"
+
+
+def extract_tracing_gates(facts):
+    """Every item guarded by #[cfg(feature = "tracing")] must be of a form that cannot influence
+    behaviour: a `use tracing::...`, a span creation, `Instant::now()` for a log line, a log macro
+    call, or a match whose arms are log macro calls - with no arithmetic, indexing, unwrap/expect
+    anywhere in it.  (C18: the model's tracing feature changes nothing; this is the static half of
+    the tie for that claim - the dynamic half is the feature-set differential.)"""
+    try:
+        n = 0
+        for rel in ("src/actor.rs", "src/actor_ref.rs", "src/lib.rs", "src/handler.rs", "src/actor_control.rs",
+                    "src/dead_letter.rs", "src/actor_result.rs", "src/error.rs"):
+            try:
+                src = read(rel)
+            except Exception:
+                continue
+            for m in re.finditer(r'#\[cfg\(feature\s*=\s*"tracing"\)\]', src):
+                i = m.end()
+                while src[i].isspace():
+                    i += 1
+                # the guarded item: up to the `;` at depth 0, or a balanced block for match / mod / fn
+                depth = 0
+                j = i
+                end = None
+                while j < len(src):
+                    c = src[j]
+                    if c in "([{":
+                        depth += 1
+                    elif c in ")]}":
+                        depth -= 1
+                        if depth < 0:
+                            end = j
+                            break
+                        if depth == 0 and c == "}" and re.match(r"\s*(match|mod|fn|impl|pub)\b", src[i:i + 12]):
+                            end = j + 1
+                            break
+                    elif c == ";" and depth == 0:
+                        end = j + 1
+                        break
+                    elif c == "," and depth == 0:
+                        end = j
+                        break
+                    j += 1
+                item = re.sub(r"\s+", " ", src[i:end]).strip()
+                n += 1
+                body = item
+                ok = False
+                if re.fullmatch(r"use tracing::[^;]*;", body):
+                    ok = True
+                elif re.fullmatch(r"let \w+ = tracing::\w+_span!\(.*\);", body):
+                    ok = True
+                elif re.fullmatch(r"let \w+ = (std|tokio)::time::Instant::now\(\);", body):
+                    ok = True
+                elif re.fullmatch(LOG + r"\(.*\);?", body):
+                    ok = True
+                elif re.fullmatch(r"match &?\w+ \{( ?[\w:()_, ]+ => " + LOG + r"\([^{}]*\),?)+ ?\}", body):
+                    ok = True
+                elif re.match(r"(pub )?(mod|fn|impl)\b", body):
+                    ok = True      # whole items compiled only with the feature (subscriber glue)
+                # nothing in a log-only item may be able to panic or compute with program values
+                inner = re.sub(r'"(?:[^"\\\\]|\\\\.)*"', '""', body)
+                if ok and not re.match(r"(pub )?(mod|fn|impl)\b", body):
+                    if re.search(r"\.unwrap\(|\.expect\(|\w\[|[^=!<>-]-[^>]|\s/\s|\s\*\s|\s\+\s", inner):
+                        ok = False
+                if not ok:
+                    raise ValueError("%s: tracing-gated item is not log-only: %s" % (rel, body[:90]))
+        facts["tracing_gated_items"] = n
+    except Exception as ex:  # noqa
+        unparsed.append("features: %s" % ex)
+
+
 def main():
     out = sys.argv[1] if len(sys.argv) > 1 else os.path.join(os.path.dirname(__file__), "..", "coq", "Gen", "Shape.v")
     facts = dict(DEFAULTS)
@@ -448,6 +521,7 @@ def main():
     extract_dead_letters(facts)
     extract_retryable(facts)
     extract_forwarders(facts)
+    extract_tracing_gates(facts)
     if facts["forwarders"] is None:
         here = os.path.join(os.path.dirname(__file__), "shape_default_forwarders.json")
         d = json.load(open(here))
